@@ -219,7 +219,10 @@ pub fn cases_c15(tys: &[Ty], cl: &Classes, rng: &mut StdRng, sample: bool) -> Ve
             if !(li % step == 0 || li < 6 || li + 6 >= nl) { continue; }
             let field = l.path.rsplit('.').next().unwrap_or("").to_string();
             let in_pair = l.path.contains("revocation_pair") || t.name == "RevocationPair";
-            let base = json!({"kind": "atom", "path": l.path, "struct": l.ty, "field": field, "in_pair": in_pair, "len": l.len, "leaf": l.kind});
+            // the range invariant belongs to the public balance types, whatever newtype nesting serde shows
+            let is_balance = l.kind == "u64" && (l.ty.contains("Balance") || field.ends_with("balance") || t.name.ends_with("Balance"));
+            let sname = if is_balance { "Balance" } else { l.ty };
+            let base = json!({"kind": "atom", "path": l.path, "struct": sname, "field": field, "in_pair": in_pair, "len": l.len, "leaf": l.kind});
             let mut alts: Vec<(&str, Vec<u8>)> = vec![];
             let orig = &t.tree.bytes[l.off..l.off + l.len];
             match (l.kind, l.len) {
